@@ -284,6 +284,14 @@ impl Compiler {
                 message: e.to_string(),
             })
         })?;
+        // bounds are kept in i64 and saturate; that only over-restricts, except for a lower bound
+        // above the range (or an upper bound below it), which would end up admitting i64::MAX (MIN)
+        const LIMIT: f64 = 9223372036854775808.0; // 2^63
+        if num.get_minimum().0.is_some_and(|m| m >= LIMIT)
+            || num.get_maximum().0.is_some_and(|m| m < -LIMIT)
+        {
+            bail!("integer bounds outside the 64-bit range are not supported");
+        }
         let (minimum, maximum) = normalize_integer_bounds(num);
         let rx = rx_int_range(minimum, maximum).with_context(|| {
             format!("Failed to generate regex for integer range: min={minimum:?}, max={maximum:?}")
